@@ -22,7 +22,7 @@ def add(n, sched, calls, any_byte, tier):
         nm, n, k, ", ".join(str(x) for x in sc), calls, "true" if any_byte else "false", n + 3),
         "17.a" if calls == 2 else "17.b", profile="R", tier=tier, timeout=900, mem_gb=8 if calls == 2 else 14,
         shape={"input_bytes": n, "chunk_schedule": sched, "calls": calls,
-               "alphabet": "all bytes" if any_byte else "{\\n, x, y}"},
+               "alphabet": "any text over ASCII + 2-byte UTF-8 characters" if any_byte else "{\\n, x, y}"},
         replay="playback"))
 
 
@@ -36,6 +36,8 @@ for sched in ([4], [2, 2], [1, 2, 1]):
     add(4, sched, 3, False, "thorough")
 for sched in compositions(5):
     add(5, sched, 3, False, "thorough")
+for sched in ([2], [1, 1]):
+    add(2, sched, 2, True, "quick")
 for sched in ([3], [1, 2], [2, 1]):
     add(3, sched, 2, True, "thorough")
 
